@@ -26,6 +26,24 @@ fn all_files(root: &std::path::Path) -> Vec<std::path::PathBuf> {
     out
 }
 
+fn all_dirs(root: &std::path::Path) -> Vec<std::path::PathBuf> {
+    let mut out = vec![];
+    let mut stack = vec![root.to_path_buf()];
+    while let Some(d) = stack.pop() {
+        if let Ok(rd) = std::fs::read_dir(&d) {
+            for e in rd.flatten() {
+                let p = e.path();
+                if p.is_dir() {
+                    out.push(p.clone());
+                    stack.push(p);
+                }
+            }
+        }
+    }
+    out.sort();
+    out
+}
+
 pub async fn op_save_targets(sc: Value) -> Value {
     let maxlen = sc["maxlen"].as_u64().unwrap_or(4) as usize;
     let alphabet = ['/', '.', 'a', '\\', ' ', 'é'];
@@ -100,8 +118,28 @@ pub async fn op_save_targets(sc: Value) -> Value {
                 cases += 1;
                 let outdir = jail.path().join(format!("{mode_name}-{i}")).join("mid").join("outdir");
                 std::fs::create_dir_all(&outdir).unwrap();
-                let r = repo.save_target(tn, &outdir, mode).await;
                 let base = jail.path().join(format!("{mode_name}-{i}"));
+                let dirs_before = all_dirs(&base);
+                // an absolute resolved name replaces outdir in Path::join: watch the directory chain it would name in the real file system
+                let abs_parent = if tn.resolved().starts_with('/') { std::path::Path::new(tn.resolved()).parent().map(|p| p.to_path_buf()) } else { None };
+                let abs_parent_existed = abs_parent.as_ref().map_or(true, |p| p.exists());
+                let r = repo.save_target(tn, &outdir, mode).await;
+                if let Some(p) = &abs_parent {
+                    if !abs_parent_existed && p.exists() {
+                        dev.push(json!({"what": format!("consistent={consistent}, prefix {mode_name}: save_target({:?}) created the directory {:?} outside of outdir (result ok={})", tn.raw(), p, r.is_ok())}));
+                        let mut q = p.clone();          // clean up what was just created, innermost first, only while empty
+                        while q != std::path::Path::new("/") && std::fs::remove_dir(&q).is_ok() {
+                            if !q.pop() { break; }
+                        }
+                    }
+                }
+                if r.is_err() {
+                    let dirs_after = all_dirs(&base);
+                    if dirs_after != dirs_before {
+                        let new: Vec<_> = dirs_after.iter().filter(|d| !dirs_before.contains(d)).map(|d| d.strip_prefix(&base).unwrap().to_path_buf()).collect();
+                        dev.push(json!({"what": format!("consistent={consistent}, prefix {mode_name}: save_target({:?}) failed but created directories {:?}", tn.raw(), new)}));
+                    }
+                }
                 let files = all_files(&base);
                 let outside: Vec<_> = files.iter().filter(|p| !p.starts_with(&outdir)).collect();
                 if !outside.is_empty() {
